@@ -26,7 +26,7 @@ PROPS = {
     'C04': dict(engine='al_sim',
                 quick=dict(runs=240, budget_s=180, min_runs=40),
                 thorough=dict(runs=6000, budget_s=1800, min_runs=400),
-                watchdog_s=180, spot=3, jaxcache=True),
+                watchdog_s=400, spot=3, jaxcache=True),
     'C05': dict(engine='spg_sim',
                 quick=dict(runs=192, budget_s=150, min_runs=40),
                 thorough=dict(runs=4000, budget_s=1500, min_runs=400),
